@@ -74,7 +74,7 @@ where
                 continue;
             }
 
-            if b == DEFINITION_PREFIX {
+            if self.is_bol && b == DEFINITION_PREFIX {
                 return Ok(&[]);
             }
 
@@ -234,10 +234,15 @@ mod tests {
         t(b"ACGT\r\nAC\r\n\r\n>sq1\r\n")?;
         t(b"AC\rGT\nAC\r\r\nA\r")?;
         t(b"\rAC\n\r\r\nGT\n\r>sq1\n")?;
+        t(b"AC>GT\nA>\n>sq1\n")?;
 
         let mut buf = Vec::new();
         read_sequence(&mut &b"AC\rGT\nAC\r\r\nA\r"[..], &mut buf)?;
         assert_eq!(buf, b"AC\rGTAC\rA");
+
+        buf.clear();
+        read_sequence(&mut &b"AC>GT\nA>\n>sq1\n"[..], &mut buf)?;
+        assert_eq!(buf, b"AC>GTA>");
 
         Ok(())
     }
